@@ -652,6 +652,767 @@ def check_e2e(ctx, falcon, testing):
                 ctx.violation('e2e-roundtrip', dict(detail, what='request media differs from response media'), key='e2e-rt')
 
 
+# ------------------------------------------------------------------ proved JSON codec (coq/C12/Json.v)
+
+def wenc(v):
+    """common.enc with list comprehensions (no C-level recursion through generators, so that deep
+    documents only need a higher Python recursion limit)."""
+    if isinstance(v, bool):
+        return '1' if v else '0'
+    if isinstance(v, int):
+        return str(v)
+    if isinstance(v, str):
+        return '(' + ' '.join([str(ord(c)) for c in v]) + ')'
+    if isinstance(v, (bytes, bytearray)):
+        return '(' + ' '.join([str(b) for b in v]) + ')'
+    if v is None:
+        return '()'
+    return '(' + ' '.join([wenc(x) for x in v]) + ')'
+
+
+def run_many(model, values, chunk=20000):
+    """common.Model.run_many over wenc (local copy: deep documents overflow common.enc)."""
+    import subprocess
+    outs = []
+    for i in range(0, len(values), chunk):
+        part = values[i:i + chunk]
+        inp = '\n'.join([wenc(v) for v in part]) + '\n'
+        r = subprocess.run(['bash', '-c', 'ulimit -s unlimited 2>/dev/null; exec "%s"' % model.drv],
+                           input=inp, stdout=subprocess.PIPE, stderr=subprocess.PIPE, text=True, timeout=1800)
+        if r.returncode != 0:
+            raise RuntimeError('model driver failed: rc=%s %s' % (r.returncode, r.stderr[-500:]))
+        lines = r.stdout.split('\n')
+        if lines and lines[-1] == '':
+            lines.pop()
+        if len(lines) != len(part):
+            raise RuntimeError('model driver returned %d lines for %d cases' % (len(lines), len(part)))
+        outs.extend([common.dec(l) for l in lines])
+    return outs
+
+
+def jw(d):
+    """float-free document -> wire (Extract.v d_jv)."""
+    if d is None:
+        return [0]
+    if isinstance(d, bool):
+        return [1, d]
+    if isinstance(d, int):
+        return [2, d]
+    if isinstance(d, str):
+        return [3, d]
+    if isinstance(d, list):
+        return [4, [jw(x) for x in d]]
+    if isinstance(d, dict):
+        return [5, [[k, jw(v)] for k, v in d.items()]]
+    raise TypeError(type(d))
+
+
+def wj(w):
+    """wire (Extract.v v_jv) -> canonical ordered form (see ocanon)."""
+    t = w[0]
+    if t == 0:
+        return ('c', None)
+    if t == 1:
+        return ('c', bool(w[1]))
+    if t == 2:
+        return ('i', w[1])
+    if t == 3:
+        return ('s', common.wstr(w[1]))
+    if t == 4:
+        return ('l', tuple(wj(x) for x in w[1]))
+    if t == 5:
+        return ('d', tuple((common.wstr(k), wj(v)) for k, v in w[1]))
+    return ('?', w)
+
+
+def ocanon(d):
+    """Order-sensitive canonical form (dict insertion order kept); bool/int distinguished."""
+    if isinstance(d, bool) or d is None:
+        return ('c', d)
+    if isinstance(d, int):
+        return ('i', d)
+    if isinstance(d, float):
+        return ('f', d.hex())
+    if isinstance(d, str):
+        return ('s', d)
+    if isinstance(d, list):
+        return ('l', tuple(ocanon(x) for x in d))
+    if isinstance(d, dict):
+        return ('d', tuple((k, ocanon(v)) for k, v in d.items()))
+    return ('?', repr(d))
+
+
+def has_surrogate(d):
+    if isinstance(d, str):
+        return any(0xd800 <= ord(c) <= 0xdfff for c in d)
+    if isinstance(d, list):
+        return any(has_surrogate(x) for x in d)
+    if isinstance(d, dict):
+        return any(has_surrogate(k) or has_surrogate(v) for k, v in d.items())
+    return False
+
+
+def has_float(d):
+    if isinstance(d, float):
+        return True
+    if isinstance(d, list):
+        return any(has_float(x) for x in d)
+    if isinstance(d, dict):
+        return any(has_float(x) for x in d.values())
+    return False
+
+
+STR_CHARS = ['a', 'Z', '0', ' ', '"', '\\', '/', '\n', '\r', '\t', '\b', '\f', '\x00', '\x01', '\x0b', '\x1f', '\x7f',
+             '\x80', '\xa0', 'é', 'ÿ', '߿', 'ࠀ', '€', ' ', '퟿', '', '�', '￿',
+             '\U00010000', '\U0001f600', '\U0010ffff', '<', '&', "'", ',', ':', '[', '{', 'u', 'n']
+SURR = ['\ud800', '\udbff', '\udc00', '\udfff', '\ud83d']
+
+
+def gen_str(rng, surrogates=False):
+    pool = STR_CHARS + (SURR if surrogates else [])
+    r = rng.random()
+    if r < 0.1:
+        return ''
+    if r < 0.2:
+        return ''.join(chr(rng.randrange(0, 0x30)) for _ in range(rng.randint(1, 8)))
+    if r < 0.25:   # any scalar code point
+        out = []
+        for _ in range(rng.randint(1, 5)):
+            c = rng.randrange(0x110000)
+            if 0xd800 <= c <= 0xdfff and not surrogates:
+                c = 0xe000
+            out.append(chr(c))
+        return ''.join(out)
+    return ''.join(rng.choice(pool) for _ in range(rng.randint(1, 10)))
+
+
+def gen_int(rng):
+    r = rng.random()
+    if r < 0.3:
+        return rng.choice([0, 1, -1, 9, 10, -10, 99, 100, 2 ** 31, -2 ** 31, 2 ** 63, 2 ** 63 - 1, -2 ** 63, 2 ** 64,
+                           -2 ** 64 - 1, 10 ** 30, -10 ** 30, 10 ** 18 - 1])
+    if r < 0.7:
+        return rng.randrange(-100000, 100000)
+    if r < 0.99:
+        return rng.randrange(-10 ** rng.randint(1, 80), 10 ** rng.randint(1, 80))
+    return rng.choice([1, -1]) * rng.randrange(10 ** 300, 10 ** rng.randint(301, 700))
+
+
+def gen_ffdoc(rng, depth=0, maxdepth=4, surrogates=False):
+    """float-free JSON document."""
+    r = rng.random()
+    if depth >= maxdepth or r < 0.4:
+        k = rng.randrange(6)
+        if k == 0:
+            return None
+        if k == 1:
+            return rng.random() < 0.5
+        if k <= 3:
+            return gen_int(rng)
+        return gen_str(rng, surrogates)
+    if r < 0.7:
+        return [gen_ffdoc(rng, depth + 1, maxdepth, surrogates) for _ in range(rng.choice([0, 1, 1, 2, 3, 5]))]
+    return {gen_str(rng, surrogates): gen_ffdoc(rng, depth + 1, maxdepth, surrogates)
+            for _ in range(rng.choice([0, 1, 1, 2, 3, 5]))}
+
+
+def deep_doc(rng, depth):
+    d = rng.choice([[], {}, 0, 'x', None])
+    for _ in range(depth):
+        r = rng.random()
+        if r < 0.4:
+            d = [d]
+        elif r < 0.8:
+            d = {rng.choice(['', 'k', '"']): d}
+        elif r < 0.9:
+            d = [1, d, 'z']
+        else:
+            d = {'a': 1, 'b': d, 'c': []}
+    return d
+
+
+WS = [' ', '\t', '\n', '\r']
+
+
+def emit_text(d, rng):
+    """An independent writer for the JSON grammar: random whitespace, random escape spellings
+    (\\uXXXX in either case, surrogate pairs, \\/), so that the parser is exercised beyond the
+    printer's image."""
+    def ws():
+        return ''.join(rng.choice(WS) for _ in range(rng.choice([0, 0, 0, 1, 2])))
+
+    def es(s):
+        out = ['"']
+        for ch in s:
+            c = ord(ch)
+            r = rng.random()
+            if ch in '"\\' or c < 0x20:
+                short = {'"': '\\"', '\\': '\\\\', '\n': '\\n', '\r': '\\r', '\t': '\\t', '\b': '\\b', '\f': '\\f'}
+                if ch in short and r < 0.6:
+                    out.append(short[ch])
+                else:
+                    out.append(('\\u%04x' if r < 0.8 else '\\u%04X') % c)
+            elif r < 0.15:
+                if c >= 0x10000:
+                    c -= 0x10000
+                    fm = '\\u%04x\\u%04x' if rng.random() < 0.5 else '\\u%04X\\u%04X'
+                    out.append(fm % (0xd800 + (c >> 10), 0xdc00 + (c & 0x3ff)))
+                else:
+                    out.append(('\\u%04x' if rng.random() < 0.5 else '\\u%04X') % c)
+            elif ch == '/' and r < 0.6:
+                out.append('\\/')
+            else:
+                out.append(ch)
+        out.append('"')
+        return ''.join(out)
+
+    def go(d):
+        if d is None:
+            return 'null'
+        if d is True:
+            return 'true'
+        if d is False:
+            return 'false'
+        if isinstance(d, int):
+            return '-0' if d == 0 and rng.random() < 0.2 else str(d)
+        if isinstance(d, str):
+            return es(d)
+        if isinstance(d, list):
+            return '[' + ws() + (ws() + ',' + ws()).join(go(x) for x in d) + ws() + ']'
+        items = list(d.items())
+        if items and rng.random() < 0.3:      # duplicate keys: the last value wins, first position kept
+            k, v = rng.choice(items)
+            items.insert(rng.randrange(len(items) + 1), (k, rng.choice([None, 7, 'dup', []])))
+        return '{' + ws() + (ws() + ',' + ws()).join(es(k) + ws() + ':' + ws() + go(v) for k, v in items) + ws() + '}'
+    return ws() + go(d) + ws()
+
+
+MUT_CHARS = list('[]{}",:\\ \t\n\r0123456789-+.eEnultrfasbx/dD8cC') + ['\x0c', '\xa0', '\x00', '\x1f', '\x7f', 'é', '\U0001f600',
+                                                                      '﻿', '\ud83d']
+
+
+def mutate_text(t, rng):
+    k = rng.randrange(6)
+    if not t:
+        return rng.choice(MUT_CHARS)
+    i = rng.randrange(len(t))
+    if k == 0:
+        return t[:i]
+    if k == 1:
+        return t[:i] + t[i + 1:]
+    if k == 2:
+        return t[:i] + rng.choice(MUT_CHARS) + t[i:]
+    if k == 3:
+        return t[:i] + rng.choice(MUT_CHARS) + t[i + 1:]
+    if k == 4:
+        j = rng.randrange(len(t))
+        a, b = min(i, j), max(i, j)
+        return t[:a] + t[b:]
+    return t + rng.choice(MUT_CHARS + ['1', ']', '}', ' x', ',1'])
+
+
+ESC_FRAGS = ['\\ud83d', '\\ude00', '\\u0041', '\\uD800', '\\uDBFF', '\\uDC00', '\\uDFFF', '\\ue000', '\\ud7ff', '\\u', '\\u12',
+             '\\uzzzz', '\\u00e', '\\u+123', '\\u 123', '\\u0x1f', '\\n', 'x', '\\', '"', '\\/', '\\"', '\\\\', '\\a', '\\U0041',
+             '\U0001f600', '\ud83d', '\\u0000', '\\u001F', ' ', '\t']
+
+
+def py_loads(text):
+    """json.loads outcome; ('float',) when the text contains a float token anywhere (fraction / exponent
+    literal, NaN, Infinity) -- detected by the parse hooks, NOT by looking at the result: a float stored
+    under a key that a later duplicate overwrites is gone from the result but still outside the float-free
+    grammar of the Coq parser."""
+    seen = []
+
+    def hook(tok):
+        seen.append(tok)
+        return float(tok)
+    try:
+        v = json.loads(text, parse_float=hook, parse_constant=hook)
+    except json.JSONDecodeError:
+        return ('reject',)
+    except ValueError as e:      # CPython's int digit limit (4300): outside the modelled domain
+        return ('skip', 'ValueError: ' + str(e)[:50])
+    except RecursionError:
+        return ('skip', 'RecursionError')
+    if seen or has_float(v):
+        return ('float',)
+    return ('ok', v)
+
+
+def real_serialize(handler, d):
+    try:
+        return ('bytes', handler.serialize(d, 'application/json'))
+    except UnicodeEncodeError:
+        return ('encode-error',)
+    except BaseException as e:   # noqa
+        return ('other', type(e).__name__)
+
+
+def real_deserialize(falcon, handler, body):
+    try:
+        return ('ok', handler.deserialize(io.BytesIO(body), 'application/json', len(body)))
+    except falcon.MediaNotFoundError:
+        return ('nf',)
+    except falcon.MediaMalformedError:
+        return ('mal',)
+    except BaseException as e:   # noqa
+        return ('other', type(e).__name__ + ': ' + str(e)[:80])
+
+
+def check_codec(ctx, falcon, model):
+    import sys
+    old = sys.getrecursionlimit()
+    sys.setrecursionlimit(20000)     # the harness's own recursive wire encoders on deep documents
+    try:
+        _check_codec(ctx, falcon, model)
+        check_form_parse(ctx, falcon, model)
+    finally:
+        sys.setrecursionlimit(old)
+
+
+def _check_codec(ctx, falcon, model):
+    import time
+    _t=[time.time()]
+    def mark(w):
+        import os
+        if os.environ.get('C12_PROF'):
+            print('PROF %s %.1fs' % (w, time.time()-_t[0])); _t[0]=time.time()
+
+    """Ties coq/C12/Json.v to the code: (L1) print / parse against CPython's json.dumps /
+    json.loads (what falcon delegates to); (L2) json_serialize / json_deserialize_body against
+    the real falcon.media.JSONHandler on bytes; the binding oracle is the round trip itself,
+    evaluated on the real handler."""
+    import itertools
+    rng = ctx.rng
+    quick = ctx.tier == 'quick'
+    handler = falcon.media.JSONHandler()
+    ctx.assumptions.append('the Coq JSON parser covers json.loads minus Python floats: texts for which json.loads returns a '
+                           'float anywhere (fraction/exponent literals, NaN, Infinity) must be REJECTED by the Coq parser; '
+                           'integer literals above CPython\'s 4300-digit limit and nesting beyond the recursion limit are '
+                           'outside the compared domain (the Coq codec has no such limits)')
+
+    # ---- documents
+    docs = [None, True, False, 0, -1, '', [], {}, [[]], [{}], {'': {}}, {'': ''}, [None, True, False], 2 ** 64, -10 ** 40,
+            '"\\/\b\f\n\r\t\x00\x1f\x7f \U0001f600', {'k"': [1, {'\n': None}], 'é': '\U0010ffff'},
+            [[], {}, [[]], {'': {}}], {'a': {'b': {'c': [1, 2, {'d': 'e'}]}}}, 10 ** 1500, -10 ** 1000 + 1]
+    if not quick:
+        docs += [10 ** 4000, -10 ** 4200 + 1]
+    n = 1500 if quick else 15000
+    for _ in range(n):
+        docs.append(gen_ffdoc(rng, maxdepth=rng.choice([1, 2, 3, 4, 6])))
+    for _ in range(n // 10):
+        docs.append(gen_ffdoc(rng, maxdepth=3, surrogates=True))
+    for _ in range(20 if quick else 100):
+        docs.append(deep_doc(rng, rng.choice([10, 50, 120, 200])))
+    docs.append(list(range(-50, 3000)))
+    docs.append({str(i): i for i in range(300)})
+    docs.append('x\U0001f600"\n' * 5000)
+
+    # L1 print vs json.dumps, code point for code point
+    texts = [json.dumps(d, ensure_ascii=False) for d in docs]
+    outs = run_many(model, [[10, jw(d)] for d in docs])
+    for d, t, o in zip(docs, texts, outs):
+        nontriv = isinstance(d, (list, dict)) and len(d) > 0 or isinstance(d, str) and t != '"%s"' % d
+        ctx.note_case(('print', t[:200], len(t)), nontriv)
+        ctx.count('codec-print')
+        if common.wstr(o) != t:
+            ctx.violation('correspondence-broken',
+                          {'broken': 'C12.json_print_corr (Coq print vs json.dumps(ensure_ascii=False))',
+                           'doc': repr(d)[:400], 'json.dumps': t[:400], 'coq_print': common.wstr(o)[:400]},
+                          found_input=False, key='codec-print')
+    mark('print')
+    # L1 parse on the printer image: Some d
+    pouts = run_many(model, [[11, t] for t in texts])
+    for d, t, o in zip(docs, texts, pouts):
+        ctx.note_case(('parse-image', t[:200], len(t)), True)
+        ctx.count('codec-parse-image')
+        if not o or wj(o[0]) != ocanon(d):
+            ctx.violation('correspondence-broken',
+                          {'broken': 'C12.json_roundtrip instance fails on the extracted model', 'doc': repr(d)[:400],
+                           'text': t[:400], 'coq_parse': repr(o)[:400]}, found_input=False, key='codec-rt-model')
+
+    mark('parse-image')
+    # L1 parse vs json.loads: independent writer, mutations, escape fragments, exhaustive short texts
+    ptexts = []
+    for d, t in zip(docs[:n], texts[:n]):
+        if len(t) > 3000:
+            continue
+        e = emit_text(d, rng)
+        ptexts.append(('emit', e))
+        ptexts.append(('mut', mutate_text(rng.choice([t, e]), rng)))
+        if rng.random() < 0.3:
+            ptexts.append(('mut2', mutate_text(mutate_text(e, rng), rng)))
+    for _ in range(n):
+        ptexts.append(('esc', '"' + ''.join(rng.choice(ESC_FRAGS) for _ in range(rng.randint(1, 4))) + '"'))
+    for _ in range(n // 3):
+        ptexts.append(('esc-in-doc', '[{"' + ''.join(rng.choice(ESC_FRAGS) for _ in range(rng.randint(0, 3))) + '" : "' +
+                       ''.join(rng.choice(ESC_FRAGS) for _ in range(rng.randint(0, 3))) + '"}]'))
+    fixed = ['', ' ', '1', '-0', '-', '01', '-01', '1.', '1.5', '1e5', '1E+5', '-1.5e-3', '1e', '1.e1', 'NaN', 'Infinity',
+             '-Infinity', '[NaN]', '{"a":1.0}', '﻿1', '﻿', '[1,]', '[,1]', '[1 2]', '{"a":1,}', '{,}', '{"a"}',
+             '{"a":}', '{"a" 1}', '{1:2}', '{"a":1 "b":2}', '{"a" : 1 , "a" : 2, "b":3}', '{"a":1,"b":2,"a":3}', 'nul',
+             'nulll', 'null', ' null ', 'true', 'false', 'tru', 'truefalse', 'True', '"', '"a', '"\\', '"\\"', '"\x1f"',
+             '"\x7f"', '"\n"', '\x0c1', '\xa01', '1\x0c', '"a" "b"', '[[[[[[]]]]]]', '[[[[[[]]]]]', '[' * 300 + ']' * 300,
+             '{"a":' * 200 + '1' + '}' * 200, '[' * 300, '+1', '0x10', '1_0', '--1', '[-]', '9' * 4300, '-' + '9' * 4300,
+             '[1,2' + ' ' * 50 + ']', '\t\n\r [\t\n\r 1\t\n\r ,\t\n\r 2\t\n\r ]\t\n\r ', '{ }', '[ ]', '{ "a" : [ ] }',
+             '١٢', '1١', '"\\ud83d\\ude00"', '"\\ud83d"', '"\\ud83d\\u0041"', '"\\ude00\\ud83d"', '"\\uD83D\\uDE00"']
+    ptexts += [('fixed', t) for t in fixed]
+    alpha = '[]{}"\\,:1-au0 '
+    maxlen = 5
+    for ln in range(0, maxlen + 1):
+        for tup in itertools.product(alpha, repeat=ln):
+            ptexts.append(('exh', ''.join(tup)))
+    alpha2 = '[]",1 \\n'        # arrays, strings and escapes one notch longer on a smaller alphabet
+    for ln in range(maxlen + 1, maxlen + (2 if quick else 3)):
+        for tup in itertools.product(alpha2, repeat=ln):
+            ptexts.append(('exh2', ''.join(tup)))
+    mark('gen-ptexts')
+    outs = run_many(model, [[11, t] for _, t in ptexts])
+    mark('run-ptexts')
+    for (label, t), o in zip(ptexts, outs):
+        r = py_loads(t)
+        ctx.count('codec-parse-' + label + '-' + r[0])
+        if r[0] == 'skip':
+            continue
+        ctx.note_case(('parse', t[:200], len(t)), r[0] != 'reject' or label in ('mut', 'mut2', 'esc', 'esc-in-doc'))
+        if r[0] == 'ok':
+            good = bool(o) and wj(o[0]) == ocanon(r[1])
+        else:
+            good = not o
+        if not good:
+            ctx.violation('correspondence-broken',
+                          {'broken': 'C12.json_parse_corr (Coq parse vs json.loads; accept/reject and value)', 'label': label,
+                           'text': t[:5000], 'text_codepoints': [ord(c) for c in t[:300]], 'json.loads': repr(r)[:400],
+                           'coq_parse': repr(o)[:400]}, found_input=False, key='codec-parse-' + label)
+    ctx.sample({'codec_text': ptexts[0][1][:120], 'json.loads': repr(py_loads(ptexts[0][1]))[:120]})
+
+    mark('cmp-ptexts')
+    # ---- UTF-8: str.encode() / bytes.decode()
+    strs = [t for t in texts[:300] if len(t) < 500] + [gen_str(rng, True) for _ in range(500)] + \
+           [chr(c) for c in (0, 0x7f, 0x80, 0x7ff, 0x800, 0xd7ff, 0xd800, 0xdfff, 0xe000, 0xffff, 0x10000, 0x10ffff)]
+    outs = run_many(model, [[15, s_] for s_ in strs])
+    for s_, o in zip(strs, outs):
+        try:
+            exp = list(s_.encode())
+        except UnicodeEncodeError:
+            exp = None
+        ctx.note_case(('utf8enc', s_[:100], len(s_)), any(ord(c) > 127 for c in s_))
+        ctx.count('utf8-encode')
+        if (o[0] if o else None) != exp:
+            ctx.violation('correspondence-broken', {'broken': 'C12.utf8_encode_corr', 'str': repr(s_)[:200]},
+                          found_input=False, key='utf8-enc')
+    bss = [bytes([a]) for a in range(256)]
+    edge = [0x00, 0x7f, 0x80, 0x8f, 0x90, 0x9f, 0xa0, 0xbf, 0xc0, 0xc1, 0xc2, 0xdf, 0xe0, 0xe1, 0xec, 0xed, 0xee, 0xef, 0xf0,
+            0xf1, 0xf3, 0xf4, 0xf5, 0xf7, 0xf8, 0xff, 0x41]
+    bss += [bytes(t) for ln in (2, 3) for t in itertools.product(edge, repeat=ln)]
+    for _ in range(3000 if quick else 60000):
+        bss.append(bytes(rng.choice(edge) for _ in range(rng.randint(4, 6))))
+    for s_ in strs[:400]:
+        try:
+            b = s_.encode()
+        except UnicodeEncodeError:
+            continue
+        bss.append(b)
+        if b:
+            i = rng.randrange(len(b))
+            bss.append(b[:i] + bytes([rng.choice(edge)]) + b[i + 1:])
+            bss.append(b[:i])
+    outs = run_many(model, [[16, b] for b in bss])
+    for b, o in zip(bss, outs):
+        try:
+            exp = [ord(c) for c in b.decode()]
+        except UnicodeDecodeError:
+            exp = None
+        ctx.note_case(('utf8dec', b[:100], len(b)), any(c > 127 for c in b))
+        ctx.count('utf8-decode')
+        if (o[0] if o else None) != exp:
+            ctx.violation('correspondence-broken', {'broken': 'C12.utf8_decode_corr', 'bytes': repr(b)[:200],
+                                                    'coq': repr(o)[:200], 'python': repr(exp)[:200]},
+                          found_input=False, key='utf8-dec')
+
+    mark('utf8')
+    # ---- L2: the real JSONHandler on bytes
+    sdocs = [d for d, t in zip(docs, texts) if len(t) < 20000]
+    outs = run_many(model, [[13, jw(d)] for d in sdocs])
+    bodies = []
+    for d, o in zip(sdocs, outs):
+        r = real_serialize(handler, d)
+        ctx.note_case(('ser', repr(d)[:200]), True)
+        ctx.count('handler-serialize-' + r[0])
+        mod = ('bytes', bytes(o[1])) if o[0] == 0 else ('encode-error',) if o[0] == 2 else ('other', o)
+        detail = {'doc': repr(d)[:400], 'handler.serialize': repr(r)[:400], 'model': repr(mod)[:400]}
+        if r[0] == 'bytes':
+            # binding oracle: the round trip through the real handler (documents with lone surrogates are
+            # not JSON-representable: correspondence only)
+            back = real_deserialize(falcon, handler, r[1])
+            if not has_surrogate(d) and (back[0] != 'ok' or canon(back[1]) != canon(d)):
+                ctx.violation('json-roundtrip', dict(detail, deserialized=repr(back)[:400],
+                                                     what='JSONHandler.deserialize(serialize(doc)) != doc'), key='codec-json-rt')
+            bodies.append((d, r[1]))
+        elif r[0] == 'other' or (r[0] == 'encode-error' and not has_surrogate(d)):
+            ctx.violation('json-roundtrip', dict(detail, what='JSONHandler.serialize raised on a JSON-representable document'),
+                          key='codec-json-ser-raise')
+        if r != mod:
+            ctx.violation('correspondence-broken', dict(detail, broken='C12.json_serialize_corr'), found_input=False,
+                          key='codec-ser')
+    mark('L2-ser')
+    # dumps returning bytes / str under both probe outcomes (the serialize glue)
+    gl_cases, gl_meta = [], []
+    for probe_str in (True, False):
+        for ret_str in (True, False):
+            for payload in ('{"a": "é"}', '"\ud800"', ''):
+                class Flip:
+                    def __init__(self):
+                        self.first = True
+
+                    def __call__(self, media):
+                        is_str = probe_str if self.first else ret_str
+                        self.first = False
+                        return payload if is_str else payload.encode('utf-8', 'surrogatepass')
+                h = falcon.media.JSONHandler(dumps=Flip())
+                try:
+                    res = h.serialize({}, 'application/json')
+                    obs = [0, list(res)] if isinstance(res, bytes) else [1, [ord(c) for c in res]]
+                except UnicodeEncodeError:
+                    obs = [2]
+                except AttributeError:
+                    obs = [3]
+                gl_cases.append([12, probe_str, [0, payload] if ret_str else [1, payload.encode('utf-8', 'surrogatepass')]])
+                gl_meta.append((probe_str, ret_str, payload, obs))
+    for c, m, o in zip(gl_cases, gl_meta, run_many(model, gl_cases)):
+        ctx.note_case(('glue', m[0], m[1], m[2]), True)
+        ctx.count('handler-serialize-glue')
+        if o != m[3]:
+            ctx.violation('correspondence-broken', {'broken': 'C12.json_serialize_glue_corr', 'probe_returns_str': m[0],
+                                                    'dumps_returns_str': m[1], 'payload': repr(m[2]), 'observed': m[3], 'model': o},
+                          found_input=False, key='codec-glue')
+    # deserialization of bodies: images, mutated, truncated, mis-encoded
+    dbodies = [('image', b) for _, b in bodies[:n]]
+    for _, b in bodies[:n]:
+        if not b:
+            continue
+        r = rng.random()
+        i = rng.randrange(len(b))
+        if r < 0.3:
+            dbodies.append(('truncated', b[:i]))
+        elif r < 0.6:
+            dbodies.append(('byte-replaced', b[:i] + bytes([rng.choice(edge + [0x22, 0x5c, 0x2c, 0x5d, 0x7d, 0x20])]) + b[i + 1:]))
+        elif r < 0.75:
+            dbodies.append(('byte-inserted', b[:i] + bytes([rng.choice(edge)]) + b[i:]))
+        elif r < 0.85:
+            try:
+                dbodies.append(('latin1', b.decode().encode('latin-1')))
+            except UnicodeEncodeError:
+                dbodies.append(('utf16', b.decode().encode('utf-16')))
+    for label, t in ptexts[:4 * n:3]:
+        try:
+            dbodies.append(('text-' + label, t.encode()))
+        except UnicodeEncodeError:
+            dbodies.append(('text-surrogatepass', t.encode('utf-8', 'surrogatepass')))
+    dbodies += [('empty', b''), ('ws', b' '), ('bom', b'\xef\xbb\xbf[]'), ('nul', b'\x00')]
+    outs = run_many(model, [[14, b] for _, b in dbodies])
+    for (label, b), o in zip(dbodies, outs):
+        r = real_deserialize(falcon, handler, b)
+        ctx.note_case(('deser', b[:200], len(b)), label != 'image')
+        ctx.count('handler-deserialize-' + label + '-' + r[0])
+        detail = {'label': label, 'body': repr(b[:3000]), 'body_len': len(b), 'handler.deserialize': repr(r)[:300],
+                  'model(0=value,1=not-found,2=malformed)': repr(o)[:300]}
+        if r[0] == 'other':
+            ctx.violation('json-undecodable-not-400', dict(detail, error=r[1]), key='codec-deser-500')
+            continue
+        try:
+            ref = py_loads(b.decode())
+        except UnicodeDecodeError:
+            ref = ('notutf8',)
+        if ref[0] == 'skip':
+            continue
+        if ref[0] == 'float':      # float tokens: outside the Coq grammar (model: malformed), the handler accepts
+            good = o[0] == 2 and r[0] == 'ok'
+        elif r[0] == 'ok':
+            good = o[0] == 0 and wj(o[1]) == ocanon(r[1])
+        else:
+            good = o[0] == {'nf': 1, 'mal': 2}[r[0]]
+        if not good:
+            if o[0] == 0 and r[0] != 'ok':
+                # a body that IS a JSON document (proved parser) is refused by the handler
+                ctx.violation('json-valid-rejected', detail, key='codec-deser-reject')
+            elif label == 'empty' and r[0] != 'nf':
+                ctx.violation('json-empty-not-notfound', detail, key='codec-deser-empty')
+            else:
+                ctx.violation('correspondence-broken', dict(detail, broken='C12.json_deserialize_body_corr'),
+                              found_input=False, key='codec-deser')
+
+    mark('L2-deser')
+    # ---- URL-encoded forms: form_print vs URLEncodedFormHandler.serialize
+    from falcon.media import URLEncodedFormHandler
+    fh = URLEncodedFormHandler()
+    fstrs = ['', 'a', 'A-Z_.~', 'a b', 'a+b', 'a&b=c', '%41', ',', 'é', '€', '\U0001f600', '\x00', '\x7f', '/', '?', '#', '*',
+             "'", '(', ')', '!', '@', ':', ';', '\n', '\ud800']
+    fcases, fmeta = [], []
+    for _ in range(n):
+        m = {}
+        for _k in range(rng.randint(0, 4)):
+            k = rng.choice(fstrs) if rng.random() < 0.6 else gen_str(rng, rng.random() < 0.1)
+            def val():
+                return rng.choice(fstrs) if rng.random() < 0.6 else gen_str(rng, rng.random() < 0.1)
+            r = rng.random()
+            m[k] = val() if r < 0.6 else [val() for _ in range(rng.choice([0, 1, 2, 3]))] if r < 0.9 \
+                else tuple(val() for _ in range(rng.choice([0, 1, 2])))
+        try:
+            obs = list(fh.serialize(m, 'application/x-www-form-urlencoded'))
+        except UnicodeEncodeError:
+            obs = None
+        fcases.append([17, [[k, [0, v] if isinstance(v, str) else [1, list(v)]] for k, v in m.items()]])
+        fmeta.append((m, obs))
+    for c, (m, obs), o in zip(fcases, fmeta, run_many(model, fcases)):
+        ctx.note_case(('form-print', repr(m)[:300]), len(m) > 0)
+        ctx.count('form-print')
+        if (o[0] if o else None) != obs:
+            detail = {'mapping': repr(m)[:400], 'handler.serialize': repr(bytes(obs) if obs is not None else None)[:400],
+                      'model': repr(bytes(o[0]) if o else None)[:400]}
+            # binding oracle: does the form round trip fail on the real handler?
+            back = None
+            if obs is not None:
+                try:
+                    back = fh.deserialize(io.BytesIO(bytes(obs)), 'application/x-www-form-urlencoded', len(obs))
+                except BaseException as e:   # noqa
+                    back = repr(e)
+            exp = form_expected(m)
+            if obs is not None and exp is not None and back != exp:
+                ctx.violation('form-roundtrip', dict(detail, expected=repr(exp)[:300], got=repr(back)[:300]), key='codec-form-rt')
+            else:
+                ctx.violation('correspondence-broken', dict(detail, broken='C12.form_print_corr'), found_input=False,
+                              key='codec-form')
+
+
+def wmapping(w):
+    """wire (Extract.v v_mapping) -> list of (key, str | list of str), order kept."""
+    return [(common.wstr(k), common.wstr(v[1]) if v[0] == 0 else [common.wstr(x) for x in v[1]]) for k, v in w]
+
+
+def check_form_parse(ctx, falcon, model):
+    """coq/C12/Form.v (decode, parse_qs, form_deserialize_body) against falcon.util.uri.decode,
+    parse_query_string(csv=False) and the real URLEncodedFormHandler.deserialize."""
+    import itertools
+    from falcon.util import uri
+    from falcon.media import URLEncodedFormHandler
+    rng = ctx.rng
+    quick = ctx.tier == 'quick'
+    n = 1500 if quick else 15000
+    fh = URLEncodedFormHandler()
+    # ---- uri.decode
+    frag = ['a', 'Z', '0', '-', '.', '_', '~', '+', '%', '%20', '%2B', '%2b', '%25', '%41', '%4', '%4g', '%g1', '%C3%A9', '%c3%a9',
+            '%E2%82%AC', '%F0%9F%98%80', '%C3', '%A9', '%FF', '%ED%A0%80', '%00', '%7F', '&', '=', ',', ' ', 'é', '€', '\U0001f600',
+            '%%', '%+1', '%2%42']
+    dstrs = [''.join(rng.choice(frag) for _ in range(rng.randint(0, 9))) for _ in range(n)]
+    for ln in range(0, 6 if quick else 7):
+        dstrs += [''.join(t) for t in itertools.product('%41g+a', repeat=ln)]
+    outs = run_many(model, [[18, x] for x in dstrs])
+    for x, o in zip(dstrs, outs):
+        try:
+            exp = uri.decode(x)
+        except UnicodeEncodeError:
+            exp = None
+        ctx.note_case(('uri-decode', x), '%' in x or '+' in x)
+        ctx.count('form-uri-decode')
+        got = common.wstr(o[0]) if o else None
+        if got is not None and got != exp or got is None and exp is not None and '�' not in exp:
+            ctx.violation('correspondence-broken', {'broken': 'C12.uri_decode_corr', 'input': x, 'uri.decode': repr(exp), 'model': repr(got)},
+                          found_input=False, key='form-decode')
+    # ---- parse_query_string(csv=False)
+    qfrag = ['a', 'b', 'k', '=', '=', '&', '&', '+', '%20', '%26', '%3D', '%2B', '%25', '%', '%4', '%C3%A9', '%FF', ',', 'a,b', '1',
+             'a=1', 'a=', '=1', 'b=2&b=3', '%61']
+    qss = [''.join(rng.choice(qfrag) for _ in range(rng.randint(0, 10))) for _ in range(n)]
+    for ln in range(0, 6 if quick else 7):
+        qss += [''.join(t) for t in itertools.product('a=&%+4', repeat=ln)]
+    images = []
+    fstrs = ['', 'a', 'A-Z_.~', 'a b', 'a+b', 'a&b=c', '%41', ',', 'é', '€', '\U0001f600', '\x00', '\x7f', '/', '=', '&', '%', '+']
+    for _ in range(n):
+        m = {}
+        for _k in range(rng.randint(0, 4)):
+            k = rng.choice(fstrs) if rng.random() < 0.7 else gen_str(rng)
+            def val():
+                return rng.choice(fstrs) if rng.random() < 0.7 else gen_str(rng)
+            m[k] = val() if rng.random() < 0.6 else [val() for _ in range(rng.choice([0, 1, 2, 3]))]
+        body = fh.serialize(m, 'application/x-www-form-urlencoded')
+        images.append((m, body))
+        qss.append(body.decode('ascii'))
+        qss.append(mutate_text(body.decode('ascii'), rng))
+    cases = [[19, kb, q] for q in qss for kb in (True, False)]
+    outs = run_many(model, cases)
+    for c, o in zip(cases, outs):
+        _, kb, q = c
+        try:
+            exp = list(uri.parse_query_string(q, keep_blank=kb, csv=False).items())
+        except UnicodeEncodeError:
+            exp = None
+        ctx.note_case(('parse-qs', kb, q), '&' in q and '=' in q)
+        ctx.count('form-parse-qs')
+        got = wmapping(o[0]) if o else None
+        repl = exp is None or any('�' in k or '�' in (v if isinstance(v, str) else ''.join(v)) for k, v in exp)
+        if got is not None and got != exp or got is None and not repl:
+            ctx.violation('correspondence-broken', {'broken': 'C12.parse_qs_corr', 'query_string': q, 'keep_blank': kb,
+                                                    'parse_query_string': repr(exp)[:400], 'model': repr(got)[:400]},
+                          found_input=False, key='form-parse-qs')
+    # ---- the real handler's deserialize on bytes
+    bodies = [('image', b) for _, b in images]
+    for _, b in images:
+        if b and rng.random() < 0.5:
+            i = rng.randrange(len(b))
+            bodies.append(('byte-replaced', b[:i] + bytes([rng.choice([0x80, 0xe9, 0xff, 0x26, 0x3d, 0x25, 0x2b, 0x41])]) + b[i + 1:]))
+    bodies += [('empty', b''), ('amp', b'&&'), ('eq', b'='), ('nonascii', b'a=\xc3\xa9'), ('plain', b'a=1&b=2&a=3')]
+    outs = run_many(model, [[20, True, b] for _, b in bodies])
+    for (label, b), o in zip(bodies, outs):
+        try:
+            r = ('ok', list(fh.deserialize(io.BytesIO(b), 'application/x-www-form-urlencoded', len(b)).items()))
+        except falcon.MediaMalformedError:
+            r = ('mal',)
+        except BaseException as e:   # noqa
+            r = ('other', repr(e)[:100])
+        ctx.note_case(('form-deser', b), label != 'image')
+        ctx.count('form-deserialize-' + label + '-' + r[0])
+        detail = {'label': label, 'body': repr(b[:1000]), 'handler.deserialize': repr(r)[:400], 'model(0=value,2=malformed,9=not modelled)': repr(o)[:400]}
+        if r[0] == 'other':
+            ctx.violation('form-undecodable-not-400', detail, key='form-deser-500')
+        elif o[0] == 9:
+            if not (r[0] == 'ok' and '�' in repr(r[1]) or '\\ufffd' in repr(r)):
+                ctx.violation('correspondence-broken', dict(detail, broken='C12.form_deserialize_body_corr (model has no answer)'),
+                              found_input=False, key='form-deser-nm')
+        elif (o[0] == 2) != (r[0] == 'mal') or (o[0] == 0 and wmapping(o[1]) != r[1]):
+            ctx.violation('correspondence-broken', dict(detail, broken='C12.form_deserialize_body_corr'), found_input=False,
+                          key='form-deser')
+    # the proved round trip, instance by instance on the extracted model and on the real handler
+    rt = [(m, b) for m, b in images if form_expected(m) == m]
+    outs = run_many(model, [[20, True, b] for _, b in rt])
+    for (m, b), o in zip(rt, outs):
+        ctx.note_case(('form-rt', b), len(m) > 0)
+        ctx.count('form-roundtrip-canonical')
+        back = fh.deserialize(io.BytesIO(b), 'application/x-www-form-urlencoded', len(b))
+        if back != m:
+            ctx.violation('form-roundtrip', {'mapping': repr(m)[:400], 'body': repr(b[:400]), 'got': repr(back)[:400]}, key='form-rt2')
+        if o[0] != 0 or wmapping(o[1]) != list(m.items()):
+            ctx.violation('correspondence-broken', {'broken': 'C12.form_roundtrip instance fails on the extracted model',
+                                                    'mapping': repr(m)[:400], 'model': repr(o)[:400]}, found_input=False, key='form-rt-model')
+
+
+def form_expected(m):
+    """What a form can represent of a mapping (str values, or sequences of >= 2 strs; a field whose
+    name AND value are empty does not exist in the format); None if the mapping is outside that domain."""
+    exp = {}
+    for k, v in m.items():
+        if not isinstance(v, str):
+            v = list(v)
+            if len(v) < 2:
+                return None
+        if k == '':
+            v = [x for x in v if x != ''] if isinstance(v, list) else v
+            if v == '' or v == []:
+                continue
+            if isinstance(v, list) and len(v) == 1:
+                v = v[0]
+        exp[k] = v
+    return exp
+
+
 def main(ctx):
     import falcon
     from falcon import testing
@@ -670,3 +1431,4 @@ def main(ctx):
     check_handlers(ctx, falcon, testing, model)
     check_response(ctx, falcon, model)
     check_e2e(ctx, falcon, testing)
+    check_codec(ctx, falcon, model)
